@@ -59,3 +59,32 @@ def mutate(draw, toks):
             i = draw(st.integers(0, n - 2))
             out[i], out[i + 1] = out[i + 1], out[i]
     return kind, out
+
+
+def mutate_tree(draw, ref):
+    """one subtree-level mutation of a reference parse: the token range of a node is duplicated in
+    place, deleted, moved next to a sibling range or replaced by the range of another node of the
+    same kind.  Returns (kind, token texts)."""
+    from hypothesis import strategies as st
+    from harness.findings import walk
+    toks = [t.text for t in ref.tokens]
+    nodes = [n for n in walk(ref.root) if n.last >= n.first and n.kind != 'Program']
+    if not nodes:
+        return 'tree_none', toks
+    kind = draw(st.sampled_from(['tree_duplicate', 'tree_duplicate', 'tree_delete', 'tree_swap', 'tree_replace']))
+    a = nodes[draw(st.integers(0, len(nodes) - 1))]
+    span = toks[a.first:a.last + 1]
+    if kind == 'tree_duplicate':
+        return kind, toks[:a.last + 1] + span + toks[a.last + 1:]
+    if kind == 'tree_delete':
+        return kind, toks[:a.first] + toks[a.last + 1:]
+    b = nodes[draw(st.integers(0, len(nodes) - 1))]
+    if kind == 'tree_replace':
+        return kind, toks[:a.first] + toks[b.first:b.last + 1] + toks[a.last + 1:]
+    # swap two disjoint ranges
+    if b.first <= a.last and a.first <= b.last:
+        return 'tree_duplicate', toks[:a.last + 1] + span + toks[a.last + 1:]
+    if b.first < a.first:
+        a, b = b, a
+    return kind, (toks[:a.first] + toks[b.first:b.last + 1] + toks[a.last + 1:b.first] +
+                  toks[a.first:a.last + 1] + toks[b.last + 1:])
